@@ -211,6 +211,20 @@ func ruleEnhDefault(c *Ctx) {
 		R.Ob("(*Conn).writeResponse/tests EnhancedCodeNotSet", c.P.Pos(f.Pos()), hasCmp, "no comparison with EnhancedCodeNotSet")
 		R.Ob("(*Conn).writeResponse/class = code/100", c.P.Pos(f.Pos()), hasDiv, "class not derived as code/100")
 		R.Ob("(*Conn).writeResponse/defaults for classes 2,4,5", c.P.Pos(f.Pos()), len(consts) == 3 && consts[2] && consts[4] && consts[5], fmt.Sprintf("defaulting classes %v", consts))
+		// the default is decided before the first line is printed: every line of the reply carries the same code
+		v := RunPend(f, PendRule{
+			StartPending: true,
+			Disch: func(in ssa.Instruction) bool {
+				iff, ok := in.(*ssa.If)
+				return ok && strings.Contains(describe(iff.Cond), "EnhancedCodeNotSet")
+			},
+			Forbid: func(in ssa.Instruction) bool { return isStaticCall(in, "(*textproto.Writer).PrintfLine") },
+		})
+		d := ""
+		if len(v) > 0 {
+			d = fmt.Sprintf("the line at %s is printed before the unset enhanced code has been replaced: a multi-line reply with an unset code goes out as \"550-0.0.0 a / 550 5.0.0 b\" and the client reads EnhancedCode{0,0,0} and a wrong text", c.P.InstrPos(v[0].At))
+		}
+		R.Ob("(*Conn).writeResponse/default decided before any line is printed", c.P.Pos(f.Pos()), len(v) == 0, d)
 	}
 }
 
